@@ -29,6 +29,11 @@ C0 = 0.35             # default crossing point
 # shared helpers
 # ------------------------------------------------------------------------------------------------
 
+# the x-space singlet and gluon are built from the singlet and gluon moments only (the harness's own
+# matrix: the code's frot_j2x / frot_pdf attributes are part of what is being checked)
+FROT_X = [[1, 0, 0, 0], [0, 1, 0, 0], [0, 0, 0, 0]]
+
+
 def hexes(arr):
     """16-hex-digit big-endian bit patterns of a float array (list of str)."""
     import numpy as np
@@ -422,7 +427,7 @@ def run(rep):
                 sc = []
             else:
                 pre = th.E(eta, tt) if isE else th.H(eta, tt)
-                gpd = np.einsum('fa,ja->jf', th.frot_j2x, pre)
+                gpd = np.einsum('fa,ja->jf', FROT_X, pre)
                 sc = list(j2x_scale(th, x, eta, Q2, pd, gpd, pw))
             lines.append(line)
             meta.append(dict(kind='Hx' if not isE else 'Ex', key=tag,
@@ -437,7 +442,7 @@ def run(rep):
             except Exception as e:
                 code = map_exc(e)
             wce = wilson.calc_wce(th, Q2, 'DIS')[0]
-            pdf = np.einsum('fa,ja->jf', th.frot_pdf, th.H(0, 0))
+            pdf = np.einsum('fa,ja->jf', FROT_X, th.H(0, 0))
             sc = [th.dis_charge / np.pi * np.dot(th.wg, np.abs(np.exp(th.jpoints * math.log(1 / x))) *
                                                   np.einsum('ja,ja->j', np.abs(wce), np.abs(pdf)))]
             lines.append(' '.join(['c04.f2', str(p), str(nf), str(RT[rt]), '0', '|'] + hexes([asf, asr, phi, x]) +
@@ -460,7 +465,7 @@ def run(rep):
         pre = th.H(eta, t)
         pw = th.pw_strengths()
         code = [float(v) for v in th.Hx(g.DataPoint({'x': x, 'eta': eta, 't': t, 'Q2': Q2}))]
-        gpd = np.einsum('fa,ja->jf', th.frot_j2x, pre)
+        gpd = np.einsum('fa,ja->jf', FROT_X, pre)
         lines.append(' '.join(['c04.x', str(p), '0', '2', '|'] + hexes([asf, th.phi, x, eta, t]) + pw_tokens(pw) + ['|'] +
                               points_tokens(pd['arr'], cflat(pre))))
         meta.append(dict(kind='Hx', key='ansatz07/' + typ, code=code, scales=list(j2x_scale(th, x, eta, Q2, pd, gpd, pw)),
@@ -559,7 +564,7 @@ def run(rep):
         hpt, hpoint = used_point({'x': x, 'eta': 0, 't': 0, 'Q2': Q2})
         hx = th.Hx(hpt)
         want = th.dis_charge * x * float(hx[0])
-        gpd = np.einsum('fa,ja->jf', th.frot_j2x, th.H(0, 0))
+        gpd = np.einsum('fa,ja->jf', FROT_X, th.H(0, 0))
         S = th.dis_charge * x * j2x_scale(th, x, 0, Q2, None, gpd, None)[0]
         d = abs(f2 - want)
         track('LO F2 vs charge·x·Hx[0], relative', sdiv(d, abs(f2)))
